@@ -4,7 +4,14 @@ Histories rich in failing writes (a failing element injected at every position o
 updates, replacements with a changed _id, duplicate keys under unique indexes, malformed
 documents, failing batch elements) run on the real code and on the Lean model.  Directly on
 python: after a single-document write that raised, documents and indexes are exactly as before;
-an insert_many is compared with issuing its inserts one at a time on a twin collection.
+an insert_many is compared with issuing its inserts one at a time on a twin collection; a failed
+update_many neither adds nor removes a document.
+
+"Arbitrary prior collection states" includes documents whose stored `_id` is not the value the
+caller gave: datetimes are normalised on the way in (naive UTC, whole milliseconds), bare or
+inside an embedded-document `_id`.  The histories draw such ids (every spelling of two stored
+instants, hist.DATE_IDS_WIDE) next to the ids that are stored as given, so every failing write
+also meets documents filed under a normalised key.
 """
 import sys
 
@@ -17,9 +24,12 @@ ID = 'C08'
 SALT = 808
 RULE = ('history = 2-25 generated operations, about 40% of the writes failing (malformed / '
         'type-incompatible operator at a random position of a 1-3 operator update, _id change, '
-        'duplicate key, failing batch element, unknown operator); every step is compared with the '
+        'duplicate key, failing batch element, unknown operator); _ids from a small pool of '
+        'scalars, embedded documents and datetimes that insertion normalises (sub-millisecond, '
+        'tz-aware; bare or inside an embedded _id); every step is compared with the '
         'Lean model on outcome and full state; on python a failed single-document write must '
-        'leave documents and indexes unchanged and insert_many must equal one-at-a-time inserts '
+        'leave documents and indexes unchanged, a failed update_many must leave the _id sequence '
+        'and the indexes unchanged, and insert_many must equal one-at-a-time inserts '
         '(twin collection); non-trivial = some single-document write fails in an operator that is '
         'not the first of its update, or a batch fails in an element that is not the first; '
         'distinct = by hash of the history')
@@ -39,7 +49,7 @@ def histgen(rng, oids):
         insert_one=16, insert_many=12, update_one=26, update_many=8, replace_one=12,
         delete_one=4, delete_many=1, find=0, count=0, distinct=0, create_index=5,
         drop_index=0, drop_indexes=1, drop=1, bulk_write=9, find_one_and_update=5,
-        find_one_and_replace=2, find_one_and_delete=2), ttl=False)
+        find_one_and_replace=2, find_one_and_delete=2), ttl=False, date_ids='wide')
     hg.ug.malformed = 0.22
     hg.dollar_values = 0.04
     return hg
@@ -81,6 +91,11 @@ def oracle(history, steps):
                           % (k, st.out[1], prev, cur)))
         if st.out[0] == 'err' and k in ('find', 'count', 'distinct', 'delete_many') and cur != prev:
             fails.append((i, 'trace', 'failed %s changed the collection' % k))
+        if st.out[0] == 'err' and k == 'update_many' and ids_state(cur) != ids_state(prev):
+            # document granularity: the documents already updated stay updated, the failing one
+            # is restored in place - so no document appears, disappears or moves
+            fails.append((i, 'trace', 'failed update_many (%s) added / removed / moved documents '
+                          'or changed the indexes: %r -> %r' % (st.out[1], prev, cur)))
         if k == 'insert_many' and isinstance(st.op[1], list) and st.op[1] and \
                 all(isinstance(d, dict) for d in st.op[1]):
             fails.extend(check_batch(history, steps, i))
@@ -90,6 +105,14 @@ def oracle(history, steps):
         if any(l not in known_labels for (_, l, _) in fails) or len(fails) > 50:
             break
     return fails
+
+
+def ids_state(state):
+    """(_id sequence, index names) of a frozen state"""
+    if not isinstance(state, tuple) or not isinstance(state[0], tuple):
+        return state
+    return (tuple(dict(d[1:]).get('_id', '<missing>') if isinstance(d, tuple) else d
+                  for d in state[0]), state[1])
 
 
 def check_batch(history, steps, i, bulk=False):
